@@ -561,3 +561,185 @@ Proof.
   { repeat apply Forall_cons; try apply Forall_nil; (split; [split; [reflexivity|cbn; lia]|cbn; lia]). }
   split; [split; [reflexivity|cbn; lia]|]. vm_compute. reflexivity.
 Qed.
+
+(* ================= Part 4: damaged chunk sets are reported as an error (C06) ================= *)
+Lemma js_app2_err s d : js_err s = true -> js_app2 s d = s.
+Proof.
+  intros He. unfold js_app2. destruct (length d <? 14)%nat; [reflexivity|].
+  destruct (negb (list_byte_eqb (firstn 12 d) icc_ident)); [reflexivity|]. rewrite He. reflexivity.
+Qed.
+
+Lemma finish_err s : js_err s = true -> js_found s = true ->
+  js_finish s = Ok {| md_format := JPEG; md_w := js_w s; md_h := js_h s; md_bits := js_bits s; md_icc := IccErr |}.
+Proof.
+  intros He Hf. unfold js_finish. rewrite Hf, He. cbn [negb].
+  destruct (negb (lenN _ =? js_got s)); reflexivity.
+Qed.
+
+(* once an error is recorded nothing changes it: whatever follows (more chunks, good or bad, other
+   segments, the frame header), the result is the frame header's fields with a profile error *)
+Lemma run_err fr : forall rest s,
+  js_err s = true ->
+  Forall jitem_ok rest ->
+  ((js_found s = false /\ sofs_of rest = [fr]) \/ (frame_is s fr /\ sofs_of rest = [])) ->
+  fst (js_run s (map enc rest))
+  = Ok {| md_format := JPEG; md_w := fst (fst fr); md_h := snd (fst fr); md_bits := snd fr; md_icc := IccErr |}.
+Proof.
+  induction rest as [|j rest IH]; intros s He Hok Hfr.
+  - cbn [map js_run fst]. destruct Hfr as [[_ Hx]|[(Hf & Hw & Hh & Hb) _]]; [discriminate|].
+    rewrite (finish_err s He Hf), Hw, Hh, Hb. reflexivity.
+  - pose proof (Forall_inv Hok) as Hj. pose proof (Forall_inv_tail Hok) as Hok'.
+    destruct j as [it|t p h1 h2 w1 w2 more|c]; cbn [map enc js_run fst snd sofs_of] in *.
+    + rewrite js_next_neutral by exact Hj. apply IH; assumption.
+    + destruct Hfr as [[Hnf Hx]|[_ Hx]]; [|discriminate]. injection Hx as Hfr0 Hrest. unfold js_next.
+      replace ((t =? 0xc0) || (t =? 0xc2)) with true by (cbn in Hj; lia). cbn [sof_data].
+      set (s' := {| js_found := true; js_w := _ |}).
+      assert (He' : js_err s' = true) by exact He.
+      assert (Hfs : frame_is s' fr) by (subst fr; repeat split).
+      destruct (js_all s').
+      * cbn [fst]. rewrite (finish_err s' He' eq_refl). destruct Hfs as (_ & Hw & Hh & Hb). rewrite Hw, Hh, Hb. reflexivity.
+      * apply IH; [exact He'|exact Hok'|]. right. split; assumption.
+    + unfold js_next. change ((226 =? 192) || (226 =? 194)) with false. change (226 =? 226) with true. cbv iota.
+      rewrite js_app2_err by exact He. rewrite He. cbn [negb andb]. apply IH; assumption.
+Qed.
+
+(* what makes a chunk erroneous after the distinct in-range chunks [pre] (all announcing n) *)
+Definition bad_chunk (n : nat) (pre : list chunk) (c : chunk) : Prop :=
+  match pre with
+  | [] => cseq c = 0 \/ ctotal c < cseq c
+  | _ => ctotal c <> N.of_nat n \/ cseq c = 0 \/ N.of_nat n < cseq c \/ In (cseq c) (map cseq pre)
+  end.
+
+Lemma find_some_seq pre k : In k (map cseq pre) -> exists c, find (fun c => cseq c =? k) pre = Some c.
+Proof.
+  induction pre as [|c pre IH]; cbn [map In find]; [tauto|]. intros [E|H].
+  - rewrite E, N.eqb_refl. eauto.
+  - destruct (cseq c =? k); [eauto|]. apply IH. exact H.
+Qed.
+
+Lemma chunk_bad n pre s c : (1 <= n)%nat -> good n pre s ->
+  (forall c', In c' pre -> 1 <= cseq c' <= N.of_nat n) ->
+  bad_chunk n pre c -> js_err (js_chunk s c) = true /\ same_frame s (js_chunk s c) /\ js_got (js_chunk s c) = js_got s.
+Proof.
+  intros Hn (He & Hc & H0 & H1) Hrange Hbad. unfold js_chunk. rewrite He.
+  destruct pre as [|p pre'].
+  - rewrite (H0 eq_refl). cbv zeta. cbn [bad_chunk] in Hbad.
+    replace ((cseq c =? 0) || (ctotal c <? cseq c)) with true by lia. split; [reflexivity|split; [repeat split|reflexivity]].
+  - destruct (H1 ltac:(discriminate)) as (sl & E & L & F). rewrite E.
+    assert (Ls : lenN sl = N.of_nat n) by (unfold lenN; rewrite L; reflexivity). rewrite Ls.
+    cbn [bad_chunk] in Hbad.
+    destruct (negb (ctotal c =? N.of_nat n)) eqn:Et; [split; [reflexivity|split; [repeat split|reflexivity]]|].
+    destruct ((cseq c =? 0) || (N.of_nat n <? cseq c)) eqn:Es; [split; [reflexivity|split; [repeat split|reflexivity]]|].
+    assert (Hin : In (cseq c) (map cseq (p :: pre'))) by (destruct Hbad as [B|[B|[B|B]]]; [lia|lia|lia|exact B]).
+    destruct (find_some_seq _ _ Hin) as (c0 & Ef).
+    assert (Hk : (N.to_nat (cseq c) - 1 < n)%nat) by lia.
+    rewrite (F _ Hk). replace (N.of_nat (S (N.to_nat (cseq c) - 1))) with (cseq c) by lia. rewrite Ef.
+    split; [reflexivity|split; [repeat split|reflexivity]].
+Qed.
+
+(* processing a prefix during which the set stays incomplete never exits the loop *)
+Lemma run_prefix n : (1 <= n <= 255)%nat -> forall A rest pre s,
+  good n pre s -> Forall jitem_ok A ->
+  (forall c, In c (pre ++ chunks_of A) -> ctotal c = N.of_nat n /\ 1 <= cseq c <= N.of_nat n /\ cseq c < 256) ->
+  NoDup (map cseq (pre ++ chunks_of A)) -> (length (pre ++ chunks_of A) < n)%nat ->
+  exists s', js_run s (map enc (A ++ rest)) = js_run s' (map enc rest) /\ good n (pre ++ chunks_of A) s' /\
+    js_found s' = (js_found s || negb (match sofs_of A with [] => true | _ => false end)) /\
+    (sofs_of A = [] -> same_frame s s') /\
+    (forall fr, js_found s = false -> sofs_of A = [fr] -> frame_is s' fr).
+Proof.
+  intros Hn255. assert (Hn : (1 <= n)%nat) by lia.
+  induction A as [|j A IH]; intros rest pre s Hg Hok Hall Hnd Hlen.
+  - exists s. cbn [app chunks_of sofs_of] in *. rewrite app_nil_r in *. split; [reflexivity|]. split; [exact Hg|].
+    split; [rewrite orb_false_r; reflexivity|]. split; [intros _; repeat split|intros fr _ H; discriminate H].
+  - pose proof (Forall_inv Hok) as Hj. pose proof (Forall_inv_tail Hok) as Hok'.
+    destruct j as [it|t p h1 h2 w1 w2 more|c].
+    + cbn [app map enc js_run chunks_of sofs_of] in *. rewrite js_next_neutral by exact Hj. apply IH; assumption.
+    + cbn [app map enc js_run chunks_of sofs_of fst snd] in *. unfold js_next.
+      replace ((t =? 0xc0) || (t =? 0xc2)) with true by (cbn in Hj; lia). cbn [sof_data].
+      set (s1 := {| js_found := true; js_w := _ |}).
+      assert (Hg1 : good n pre s1) by exact Hg.
+      assert (Ea : js_all s1 = false).
+      { destruct (js_all s1) eqn:Ea; [|reflexivity]. destruct (js_all_good n pre s1 Hg1 Ea) as [_ Hl].
+        rewrite app_length in Hlen. lia. }
+      rewrite Ea. destruct (IH rest pre s1 Hg1 Hok' Hall Hnd Hlen) as (s' & Er & Hg' & Hf' & Hsame & Hfr).
+      exists s'. split; [exact Er|]. split; [exact Hg'|]. split; [rewrite Hf'; cbn; rewrite orb_true_r; reflexivity|].
+      split; [intros H; discriminate H|]. intros fr Hnf H. injection H as Hfr0 HA.
+      destruct (Hsame HA) as (Sf & Sw & Sh & Sb). unfold frame_is. rewrite Sf, Sw, Sh, Sb. subst fr. repeat split.
+    + cbn [app map enc js_run chunks_of sofs_of fst snd] in *.
+      assert (Hc : ctotal c = N.of_nat n /\ 1 <= cseq c <= N.of_nat n /\ cseq c < 256)
+        by (apply Hall; apply in_or_app; right; left; reflexivity).
+      destruct Hc as (Hct & Hcs & Hc256).
+      assert (Hnew : ~ In (cseq c) (map cseq pre)).
+      { rewrite map_app in Hnd. cbn [map] in Hnd. apply NoDup_remove_2 in Hnd. intros Hin. apply Hnd.
+        apply in_or_app. left. exact Hin. }
+      destruct (chunk_good n pre s c Hn Hg Hct Hcs Hnew) as [Hg1 (Sf & Sw & Sh & Sb)].
+      unfold js_next. change ((226 =? 192) || (226 =? 194)) with false. change (226 =? 226) with true. cbv iota.
+      rewrite js_app2_icc by lia.
+      replace (pre ++ c :: chunks_of A) with ((pre ++ [c]) ++ chunks_of A) in * by (rewrite <- app_assoc; reflexivity).
+      set (s1 := js_chunk s c) in *.
+      assert (Ea : js_all s1 = false).
+      { destruct (js_all s1) eqn:Ea; [|reflexivity]. destruct (js_all_good n _ s1 Hg1 Ea) as [_ Hl].
+        rewrite app_length in Hlen. lia. }
+      rewrite Ea, andb_false_r.
+      destruct (IH rest (pre ++ [c]) s1 Hg1 Hok' Hall Hnd Hlen) as (s' & Er & Hg' & Hf' & Hsame & Hfr).
+      exists s'. split; [exact Er|]. split; [exact Hg'|]. split; [rewrite Hf', Sf; reflexivity|].
+      split.
+      * intros HA. destruct (Hsame HA) as (A1 & A2 & A3 & A4). unfold same_frame. rewrite A1, A2, A3, A4, Sf, Sw, Sh, Sb. repeat split.
+      * intros fr Hnf HA. apply Hfr; [rewrite Sf; exact Hnf|exact HA].
+Qed.
+
+Lemma sofs_of_app a b : sofs_of (a ++ b) = sofs_of a ++ sofs_of b.
+Proof. induction a as [|j a IH]; [reflexivity|]. destruct j; cbn [app sofs_of]; rewrite ?IH; reflexivity. Qed.
+Lemma chunks_of_app a b : chunks_of (a ++ b) = chunks_of a ++ chunks_of b.
+Proof. induction a as [|j a IH]; [reflexivity|]. destruct j; cbn [app chunks_of]; rewrite ?IH; reflexivity. Qed.
+
+(* C06 (JPEG), damaged sets: a chunk that is erroneous with respect to the distinct in-range chunks seen
+   before it - a wrong total, number 0, a number beyond the total, or a number already seen (for a first
+   chunk: number 0 or beyond its own total) - arriving while the set is still incomplete: the frame
+   header's fields come back with a profile ERROR, whatever follows (more chunks, good or bad) and
+   wherever the frame header is *)
+Theorem jpeg_icc_damaged inflate (A B : list jitem) (bad : chunk) (n : nat) fr sos body fuel :
+  let jits := A ++ [JIcc bad] ++ B in
+  (1 <= n <= 255)%nat ->
+  (forall c, In c (chunks_of A) -> ctotal c = N.of_nat n /\ 1 <= cseq c <= N.of_nat n) ->
+  NoDup (map cseq (chunks_of A)) -> (length (chunks_of A) < n)%nat ->
+  bad_chunk n (chunks_of A) bad -> cseq bad < 256 -> ctotal bad < 256 ->
+  sofs_of jits = [fr] -> Forall jitem_ok jits ->
+  Forall item_ok (map enc jits) -> seg_ok 0xda sos -> (length jits < fuel)%nat ->
+  fst (run_pure inflate (jpeg_prog fuel) (jpeg_file (map enc jits) sos body))
+  = Ok {| md_format := JPEG; md_w := fst (fst fr); md_h := snd (fst fr); md_bits := snd fr; md_icc := IccErr |}.
+Proof.
+  intros jits Hn Hall Hnd Hlen Hbad Hs256 Ht256 Hsof Hjok Hok Hsos Hf.
+  rewrite jpeg_file_run by (try assumption; rewrite map_length; exact Hf).
+  assert (Hrange : forall c, In c ([] ++ chunks_of A) -> ctotal c = N.of_nat n /\ 1 <= cseq c <= N.of_nat n /\ cseq c < 256).
+  { intros c Hin. destruct (Hall c Hin) as [X Y]. repeat split; try assumption; try apply Y. lia. }
+  unfold jits in Hjok. apply Forall_app in Hjok. destruct Hjok as [HokA HokB].
+  destruct (run_prefix n Hn A ([JIcc bad] ++ B) [] js0 (good_js0 n) HokA Hrange Hnd Hlen)
+    as (s' & Er & Hg' & Hf' & Hsame & Hfr').
+  unfold jits. rewrite Er. cbn [app] in Hg'. cbn [app map enc js_run fst snd].
+  assert (Hn1 : (1 <= n)%nat) by lia.
+  destruct (chunk_bad n (chunks_of A) s' bad Hn1 Hg' (fun c Hin => proj2 (Hall c Hin)) Hbad) as (He2 & (Sf & Sw & Sh & Sb) & Sg).
+  unfold js_next. change ((226 =? 192) || (226 =? 194)) with false. change (226 =? 226) with true. cbv iota.
+  rewrite js_app2_icc by assumption. rewrite Sg, N.eqb_refl. cbn [negb andb]. rewrite andb_false_r.
+  assert (HB : Forall jitem_ok B) by (apply Forall_app in HokB; tauto).
+  unfold jits in Hsof. rewrite !sofs_of_app in Hsof. cbn [sofs_of app] in Hsof.
+  set (s2 := js_chunk s' bad) in *.
+  apply app_eq_unit in Hsof. destruct Hsof as [[HA HBs]|[HA HBs]].
+  - assert (R : fst (js_run s2 (map enc B)) = Ok {| md_format := JPEG; md_w := fst (fst fr); md_h := snd (fst fr); md_bits := snd fr; md_icc := IccErr |}).
+    { apply (run_err fr B s2 He2 HB). left. split; [|exact HBs]. rewrite Sf, Hf', HA. reflexivity. }
+    cbn [andb]. destruct (js_run s2 (map enc B)) as [r [unread|]]; exact R.
+  - assert (R : fst (js_run s2 (map enc B)) = Ok {| md_format := JPEG; md_w := fst (fst fr); md_h := snd (fst fr); md_bits := snd fr; md_icc := IccErr |}).
+    { apply (run_err fr B s2 He2 HB). right. split; [|exact HBs].
+      pose proof (Hfr' fr eq_refl HA) as (F1 & F2 & F3 & F4). unfold frame_is. rewrite Sf, Sw, Sh, Sb. repeat split; assumption. }
+    cbn [andb]. destruct (js_run s2 (map enc B)) as [r [unread|]]; exact R.
+Qed.
+
+(* non-vacuity: chunk 1 of 2, then a duplicate of chunk 1, then chunk 2 and the frame header *)
+Example damaged_example :
+  let c1 := {| cseq := 1; ctotal := 2; cdata := ["a"]%byte |} in
+  let c2 := {| cseq := 2; ctotal := 2; cdata := ["b"]%byte |} in
+  bad_chunk 2 (chunks_of [JIcc c1]) c1 /\
+  fst (run_pure (fun _ => None) (jpeg_prog 10)
+        (jpeg_file (map enc ([JIcc c1] ++ [JIcc c1] ++ [JIcc c2; JSof 0xc0 x08 x00 x02 x00 x03 []])) [x00] []))
+  = Ok {| md_format := JPEG; md_w := 3; md_h := 2; md_bits := 8; md_icc := IccErr |}.
+Proof. cbv zeta. split; [cbn; right; right; right; left; reflexivity|vm_compute; reflexivity]. Qed.
